@@ -95,7 +95,7 @@ func vConfig(o vOpts) *config.Config {
 	c.Logger = log.New(vLogSink, "", 0)
 	// INFO at the default verbosity: the sink watches for "Node left" (see vLogSink); nothing is logged per operation
 	c.LogLevel = "INFO"
-	c.LogVerbosity = 2
+	c.LogVerbosity = 3 // 3: failed replica writes / deletes are reported at this level (see vLogSink)
 	c.LeaveTimeout = 300 * time.Millisecond
 	c.ReplicaCount = o.Replicas
 	c.ReadQuorum = o.RQ
